@@ -50,6 +50,14 @@ def uf_decl(name):
 SQRT2 = z3.Real("sqrt2!const")
 
 
+def default_value(name, salt=""):
+    """Deterministic pseudo-random 'generic' value in (0.25, 2.75) for a symbol name."""
+    import hashlib
+
+    h = int(hashlib.sha1((salt + name).encode()).hexdigest()[:8], 16)
+    return 0.25 + (h % 1000) / 400.0
+
+
 class Stats:
     def __init__(self):
         self.paths = 0
@@ -218,7 +226,32 @@ class Ctx:
         r = str(s.check())
         self.stats.solver_s += time.time() - t0
         self.stats.prove[r] += 1
-        return r, (s.model() if r == "sat" else None)
+        if r != "sat":
+            return r, None
+        return r, self._generic_model(s)
+
+    @staticmethod
+    def _generic_model(s, max_vars=80):
+        """Counterexamples with generic numbers: pin as many variables as possible to pseudo-random
+        values (z3 likes zeros, which make matrices singular and replays meaningless)."""
+        m = s.model()
+        names = {}
+        for a in s.assertions():
+            free_vars(a, names)
+        s.set("timeout", 3000)
+        for name in sorted(names)[:max_vars]:
+            v = names[name]
+            if not z3.is_real(v) or "!" in name:
+                continue
+            val = default_value(name)
+            n, d = val.as_integer_ratio()
+            s.push()
+            s.add(v == z3.Q(n, d))
+            if str(s.check()) == "sat":
+                m = s.model()
+            else:
+                s.pop()
+        return m
 
     def model(self, extra=()):
         """A model of the path condition (for encoding validation), or None."""
@@ -391,3 +424,79 @@ def free_vars(term, acc=None, seen=None):
         else:
             stack.extend(t.children())
     return acc
+
+
+# ---------------------------------------------------------------------- rational normal form
+def ratnorm(t, cache=None):
+    """(num, den) with t == num/den, both division-free (ITE / UF applications are atoms whose
+    arguments are normalised recursively only through z3.simplify)."""
+    if cache is None:
+        cache = {}
+    k = t.get_id()
+    if k in cache:
+        return cache[k]
+    one = z3.RealVal(1)
+    kind = t.decl().kind()
+    ch = t.children()
+    if kind in (z3.Z3_OP_DIV,):
+        (an, ad), (bn, bd) = ratnorm(ch[0], cache), ratnorm(ch[1], cache)
+        r = (an * bd, ad * bn)
+    elif kind == z3.Z3_OP_ADD:
+        parts = [ratnorm(c, cache) for c in ch]
+        if all(d.eq(one) for _, d in parts):
+            r = (z3.Sum([n for n, _ in parts]), one)
+        else:
+            num, den = parts[0]
+            for n2, d2 in parts[1:]:
+                if d2.eq(one):
+                    num = num + n2 * den
+                elif den.eq(one):
+                    num, den = num * d2 + n2, d2
+                elif den.eq(d2):
+                    num = num + n2
+                else:
+                    num, den = num * d2 + n2 * den, den * d2
+            r = (num, den)
+    elif kind == z3.Z3_OP_SUB:
+        num, den = ratnorm(ch[0], cache)
+        for c in ch[1:]:
+            n2, d2 = ratnorm(c, cache)
+            if d2.eq(one):
+                num = num - n2 * den
+            elif den.eq(d2):
+                num = num - n2
+            else:
+                num, den = num * d2 - n2 * den, den * d2
+        r = (num, den)
+    elif kind == z3.Z3_OP_MUL:
+        num, den = one, one
+        for c in ch:
+            n2, d2 = ratnorm(c, cache)
+            num = n2 if num.eq(one) else num * n2
+            if not d2.eq(one):
+                den = d2 if den.eq(one) else den * d2
+        r = (num, den)
+    elif kind == z3.Z3_OP_UMINUS:
+        n, d = ratnorm(ch[0], cache)
+        r = (-n, d)
+    else:
+        r = (t, one)
+    cache[k] = r
+    return r
+
+
+def cross_eq(a, b):
+    """Division-free formula equivalent to a == b wherever all denominators are non-zero."""
+    (an, ad), (bn, bd) = ratnorm(a), ratnorm(b)
+    one = z3.RealVal(1)
+    if ad.eq(one) and bd.eq(one):
+        return an == bn
+    d = z3.simplify(an * bd - bn * ad, som=True)
+    return d == 0
+
+
+def poly_zero(a, b):
+    """True iff a - b normalises syntactically to 0 (z3 simplifier, sum-of-monomials)."""
+    (an, ad), (bn, bd) = ratnorm(a), ratnorm(b)
+    d = z3.simplify(an * bd - bn * ad, som=True)
+    return z3.is_rational_value(d) and d.numerator_as_long() == 0
